@@ -639,5 +639,5 @@ def run_alone(sf, K, call, gran="instr", pre=()):
     rec = run(sf, {"table": K, "threads": [[call]], "policy": {"kind": "random", "p": 0.0, "gran": gran},
                    "seed": "alone", "budget": 10 ** 9, "probes": [], "pre": list(pre)})
     if rec["outcome"] != "ok":
-        return None, rec["steps"], rec["harness_error"] or ("outcome:" + rec["outcome"])
-    return rec["results"][0][0], rec["steps"], rec["harness_error"]
+        return None, rec["steps"], rec["harness_error"] or ("outcome:" + rec["outcome"]), {}
+    return rec["results"][0][0], rec["steps"], rec["harness_error"], rec["state_diff"]
